@@ -60,43 +60,52 @@ def run(ctx, proof):
         if [float(x) for x in st] != obs[1][1]["lobs"]:
             fails.append(("reset() observation differs from state",))
         sizes_seq, revealed = [], []
-        steps = 0
-        while steps < (2 ** n) and not (lin.done and rng.random() < 0.7):
-            lmask = [bool(x) for x in lin.action_masks()]
-            allowed = [k for k, m in enumerate(lmask) if m]
-            # independent statement of the mask
-            known = env.incomplete_game.are_values_known()
-            want = [any((not known[c]) and games.popcount(c) == k for c in expl) for k in range(len(lmask))]
-            if lmask != want:
-                fails.append(("mask", lmask, want))
-            if len(lmask) != n:
-                fails.append(("mask length", len(lmask)))
-            if not allowed:
-                break
-            k = rng.choice(allowed)
-            before_known = set(int(i) for i in np.where(known)[0])
-            res = lin.step(k)
-            c = int(res[4]["chosen_coalition"])
-            a = expl.index(c)
-            if games.popcount(c) != k or c in before_known:
-                fails.append(("revealed coalition has wrong size or was known", k, c))
-            after_known = set(int(i) for i in np.where(env.incomplete_game.are_values_known())[0])
-            if after_known != before_known | {c}:
-                fails.append(("more than one coalition changed", sorted(after_known ^ before_known)))
-            inner = [float(x) for x in env.state]
-            agg = [sum(x for x, cc in zip(inner, expl) if games.popcount(cc) == kk) for kk in range(n)]
-            lobs = [float(x) for x in res[0]]
-            if len(lobs) != n or any(abs(p - q) > 1e-12 for p, q in zip(lobs, agg)):
-                fails.append(("observation is not the per-size sum", lobs, agg))
-            if float(res[1]) != float(env.reward) or bool(res[2]) != bool(env.done):
-                fails.append(("reward/done differ from the inner environment",))
-            ops += [("lstep", k, a), ("q_lin",)]
-            ob = envlib.observe(env)
-            ob["info"] = c
-            obs += [("state", ob), ("lin", lin_observe(lin))]
-            sizes_seq.append(k)
-            revealed.append(c)
-            steps += 1
+        for episode in range(2):
+            if episode == 1:
+                # a second episode on the SAME environment object: nothing of the first one may leak into it
+                st2, _ = lin.reset()
+                ops += [("reset", v, [float(x) for x in env.normalized_game.get_values()]), ("q_lin",)]
+                obs += [("state", envlib.observe(env)), ("lin", lin_observe(lin))]
+                if [float(x) for x in st2] != obs[-1][1]["lobs"] or any(x != 0 for x in st2):
+                    fails.append(("observation after the second reset is not all zero / differs from state", [float(x) for x in st2]))
+                sizes_seq.append("reset")
+            steps = 0
+            while steps < ((2 ** n) if episode == 0 else 3) and not (lin.done and rng.random() < 0.7):
+                lmask = [bool(x) for x in lin.action_masks()]
+                allowed = [k for k, m in enumerate(lmask) if m]
+                # independent statement of the mask
+                known = env.incomplete_game.are_values_known()
+                want = [any((not known[c]) and games.popcount(c) == k for c in expl) for k in range(len(lmask))]
+                if lmask != want:
+                    fails.append(("mask", lmask, want))
+                if len(lmask) != n:
+                    fails.append(("mask length", len(lmask)))
+                if not allowed:
+                    break
+                k = rng.choice(allowed)
+                before_known = set(int(i) for i in np.where(known)[0])
+                res = lin.step(k)
+                c = int(res[4]["chosen_coalition"])
+                a = expl.index(c)
+                if games.popcount(c) != k or c in before_known:
+                    fails.append(("revealed coalition has wrong size or was known", k, c))
+                after_known = set(int(i) for i in np.where(env.incomplete_game.are_values_known())[0])
+                if after_known != before_known | {c}:
+                    fails.append(("more than one coalition changed", sorted(after_known ^ before_known)))
+                inner = [float(x) for x in env.state]
+                agg = [sum(x for x, cc in zip(inner, expl) if games.popcount(cc) == kk) for kk in range(n)]
+                lobs = [float(x) for x in res[0]]
+                if len(lobs) != n or any(abs(p - q) > 1e-12 for p, q in zip(lobs, agg)):
+                    fails.append(("observation is not the per-size sum", lobs, agg))
+                if float(res[1]) != float(env.reward) or bool(res[2]) != bool(env.done):
+                    fails.append(("reward/done differ from the inner environment",))
+                ops += [("lstep", k, a), ("q_lin",)]
+                ob = envlib.observe(env)
+                ob["info"] = c
+                obs += [("state", ob), ("lin", lin_observe(lin))]
+                sizes_seq.append(k)
+                revealed.append(c)
+                steps += 1
         if fails:
             ctx.violation(f"linear environment contradicts its specification: {fails[:3]}",
                           {"n": n, "comp": comp, "gap": gap, "v": [str(x) for x in v], "sizes": sizes_seq, "revealed": revealed,
@@ -104,7 +113,7 @@ def run(ctx, proof):
         jobs.append((envlib.env_line(n, comp, gap, budget, init_ids, ops), obs,
                      {"n": n, "comp": comp, "gap": gap, "budget": budget, "v": v, "sizes": sizes_seq, "revealed": revealed, "exact": exact, "expl": expl}))
         ctx.count("n", n)
-        ctx.count("steps", len(sizes_seq))
+        ctx.count("steps", len([x for x in sizes_seq if x != "reset"]))
         for k in sizes_seq:
             ctx.count("size_chosen", k)
     outs = run_driver_parallel([j[0] for j in jobs])
@@ -134,7 +143,7 @@ def run(ctx, proof):
                 break
         if d is not None:
             mism.append((meta, d))
-        if len(meta["sizes"]) >= 2:
+        if len([x for x in meta["sizes"] if x != "reset"]) >= 2:
             ctx.nontrivial.add((meta["comp"], meta["gap"], tuple(map(float, meta["v"])), tuple(meta["sizes"]), tuple(meta["revealed"])))
         ctx.sample({"n": n, "computer": meta["comp"], "gap": meta["gap"], "sizes": meta["sizes"], "revealed": meta["revealed"]}, limit=4)
     if mism and not any(v["found_input"] for v in ctx.violations):
